@@ -50,6 +50,7 @@ type Case struct {
 	Full     bool       `json:"full,omitempty"`      // enumerate malformed variants completely instead of sampling
 	Fixture  string     `json:"fixture,omitempty"`   // repo-relative path of a fixture index: re-encode case
 	History  []HistStep `json:"history,omitempty"`   // further StoreIndex calls on a few names (history_test.go)
+	Conc     *Conc      `json:"conc,omitempty"`      // concurrent reads of several names (concurrent_test.go)
 }
 
 // ---------------------------------------------------------------- deterministic expansion
@@ -521,7 +522,7 @@ func run(c Case) (o hx.Outcome) {
 	desc := map[string]any{"store": kind, "digest": digestName(c.SHA256), "chunks": n, "flags": fmt.Sprintf("%#x", want.Flags),
 		"min": c.Min, "avg": c.Avg, "max": c.Max, "blob": total, "size_mode": c.SizeMode, "id_mode": c.IDMode, "full": c.Full}
 	o.Desc = desc
-	o.Key = fmt.Sprintf("%s/%v/%x/%d/%d/%d/%d/%s/%x/%v/%s/%x/%v/%v", kind, c.SHA256, want.Flags, c.Min, c.Avg, c.Max, n, c.SizeMode, c.SizeSeed, c.Sizes, c.IDMode, c.IDSeed, c.Full, c.History)
+	o.Key = fmt.Sprintf("%s/%v/%x/%d/%d/%d/%d/%s/%x/%v/%s/%x/%v/%v", kind, c.SHA256, want.Flags, c.Min, c.Avg, c.Max, n, c.SizeMode, c.SizeSeed, c.Sizes, c.IDMode, c.IDSeed, c.Full, c.History) + concKey(c.Conc)
 	o.Class(chunkClass(n), "digest:"+digestName(c.SHA256), "store:"+kind)
 	switch {
 	case c.Max == maxU64:
@@ -580,6 +581,13 @@ func run(c Case) (o hx.Outcome) {
 		desc["history"] = hdone
 	}
 
+	// concurrent reads of several names
+	if c.Conc != nil && concKinds[kind] {
+		if info := runConcurrent(c, kind, env, &o, f); info != nil {
+			desc["concurrent"] = info
+		}
+	}
+
 	// (d): malformed inputs through every reading path of the store
 	valid := ref.EncodeIndex(want)
 	breadth := "narrow"
@@ -604,7 +612,10 @@ func run(c Case) (o hx.Outcome) {
 			f.fail("C04:roundtrip:read-error", "%s: the reference encoding of the table (%d chunks, max %d) is refused: %v", fd.name, n, c.Max, err)
 			continue
 		}
-		for _, m := range inputs {
+		for mi, m := range inputs {
+			if fd.slow && m.class == "truncated" && mi%4 != int(c.Pick%4) {
+				continue // the slow path takes a quarter of the prefixes
+			}
 			tried[m.class]++
 			if err := fd.read(m.b); err == nil {
 				f.fail("C04:accepts:"+m.class, "%s accepted a malformed index (%d chunks, digest %s): %s", fd.name, n, digestName(c.SHA256), m.desc)
@@ -787,6 +798,7 @@ func genCase(t *rapid.T) Case {
 	c.IDSeed = rapid.Uint64().Draw(t, "idseed")
 	c.Pick = rapid.Uint64().Draw(t, "pick")
 	c.History = drawHistory(t, c.Store)
+	c.Conc = drawConc(t, c.Store)
 	return c
 }
 
@@ -794,7 +806,7 @@ var spec = &hx.Spec[Case]{
 	ID:    "C04",
 	Level: "exploration",
 	Rule: "cases = (index: any feature flags with the digest bit consistent, min/avg/max from interesting 64-bit values, 0..2000 chunks of 1..min(max,2^40) bytes, seeded IDs incl. all-zero ones) x digest {sha512-256, sha256} x index store kind; " +
-		"each case is written, every byte image checked against the independent codec, read back, followed on local/http/s3/sftp by an overwrite history (1..8 further StoreIndex calls on up to 3 names; new value = same shape other IDs / same IDs other sizes / shorter / longer / identical / empty / other parameters; read back and raw object checked after every write and at the end), and malformed variants (strict prefixes, one offset decreased, one chunk enlarged beyond max, digest bit flipped) are fed to every reading path; " +
+		"each case is written, every byte image checked against the independent codec, read back, followed on local/http/s3/sftp by an overwrite history (1..8 further StoreIndex calls on up to 3 names; new value = same shape other IDs / same IDs other sizes / shorter / longer / identical / empty / other parameters; read back and raw object checked after every write and at the end), on http/local/s3 optionally by concurrent reads (2..4 names of equal and/or different shape with up to 20000 chunks (thorough 60000), 2..8 goroutines x 1..3 GetIndex calls with own or shared client, slow raw readers, a concurrent writer on other names; or the deterministic slow-reader overlap on the HTTP server), and malformed variants (strict prefixes, one offset decreased, one chunk enlarged beyond max, digest bit flipped) are fed to every reading path; " +
 		"non-trivial = table with >= 2 chunks, or a zero-chunk table, or at least one malformed file rejected; distinct by (store, digest, flags, min, avg, max, chunk count, size/ID seeds)",
 	Assumptions: []string{
 		"oracle layout/codec: internal/ref (plain encoding/binary after casync's caformat.h), shares no code with desync",
@@ -809,7 +821,10 @@ var spec = &hx.Spec[Case]{
 		"max:maxuint64", "max:near-maxuint64", "chunk-size==max", "fixture",
 		"store-history:create", "store-history:overwrite:same-shape-different-ids", "store-history:overwrite:same-ids-different-sizes",
 		"store-history:overwrite:shorter", "store-history:overwrite:longer", "store-history:overwrite:identical",
-		"store-history:overwrite:empty", "store-history:overwrite:different-params", "store-history:interleaved-names"},
+		"store-history:overwrite:empty", "store-history:overwrite:different-params", "store-history:interleaved-names",
+		"http:concurrent-get:same-shape", "http:concurrent-get:different-shape", "http:concurrent-get:large", "http:concurrent-get:slow-reader",
+		"http:concurrent-get:shared-client", "http:concurrent-get:own-client", "http:concurrent-get:with-writer", "http:concurrent-get:deterministic-slow-reader",
+		"local:concurrent-get:same-shape", "s3:concurrent-get:same-shape"},
 	Gen: genCase,
 	Run: run,
 	// a case that never returns is a verdict (confirmed by a replay in a fresh process), not a timeout of the run
@@ -841,6 +856,8 @@ func TestEnum(t *testing.T) {
 	t.Run("small-tables", enumSmallTables)
 	t.Run("large-tables", enumLargeTables)
 	t.Run("store-kinds", enumStoreKinds)
+	t.Run("overwrite-scenarios", enumOverwriteScenarios)
+	t.Run("concurrent-scenarios", enumConcurrentScenarios)
 }
 
 // mine spreads the deterministic parts over the shards of a run (all on shard 0 when there is one).
@@ -888,10 +905,10 @@ func enumSmallTables(t *testing.T) {
 }
 
 func enumLargeTables(t *testing.T) {
-	if !mine(1) {
-		t.Skip()
-	}
 	for _, sha := range []bool{false, true} {
+		if part := map[bool]int{false: 1, true: 6}[sha]; !mine(part) {
+			continue
+		}
 		for _, n := range []int{100, maxChunks} {
 			for _, mx := range []uint64{64 << 10, maxU64} {
 				if n > 100 && mx == maxU64 {
@@ -904,8 +921,8 @@ func enumLargeTables(t *testing.T) {
 				}
 			}
 		}
+		hx.Exhaustive("truncation of a 100-chunk table at every length and of a 2000-chunk table at every element boundary +-1, digest " + digestName(sha))
 	}
-	hx.Exhaustive("truncation of a 100-chunk table at every length and of a 2000-chunk table at every element boundary +-1, both digests")
 }
 
 func enumStoreKinds(t *testing.T) {
@@ -923,7 +940,13 @@ func enumStoreKinds(t *testing.T) {
 			}
 		}
 	}
-	// the fixed overwrite scenarios on every store kind that keeps named objects
+}
+
+// enumOverwriteScenarios: the fixed overwrite scenarios on every store kind that keeps named objects.
+func enumOverwriteScenarios(t *testing.T) {
+	if !mine(5) {
+		t.Skip()
+	}
 	for _, kind := range storeOrder {
 		if histMax[kind] == 0 {
 			continue
@@ -951,6 +974,45 @@ func enumStoreKinds(t *testing.T) {
 		}
 	}
 	hx.Note("enumerated_overwrite_scenarios", 1)
+}
+
+// enumConcurrentScenarios: the deterministic slow-reader scenario on the HTTP index server
+// (same shape, shorter shapes, mixed) and two goroutine scenarios per kind.
+func enumConcurrentScenarios(t *testing.T) {
+	for _, sha := range []bool{false, true} {
+		for _, cc := range []Conc{
+			{Names: 2, Shape: "same", Chunks: 6000, Det: true, Seed: 1},
+			{Names: 3, Shape: "different", Chunks: 8000, Det: true, Seed: 2},
+			{Names: 4, Shape: "mixed", Chunks: hx.Pick(20000, 60000), Det: true, Seed: 3},
+			{Names: 3, Shape: "mixed", Chunks: hx.Pick(20000, 60000), G: 8, Rounds: 2, Slow: 2, Writers: 1, Seed: 4},
+			{Names: 2, Shape: "same", Chunks: 3000, G: 4, Rounds: 3, Shared: true, Slow: 1, Seed: 5},
+		} {
+			if part := map[bool]int{true: 4, false: 7}[cc.Det]; !mine(part) {
+				continue
+			}
+			for _, kind := range []string{"http", "local", "s3"} {
+				if kind != "http" && cc.Det {
+					continue
+				}
+				cc := cc
+				if kind != "http" && cc.Chunks > 3000 {
+					cc.Chunks = 3000 // the large responses matter for the HTTP server only
+				}
+				c := Case{SHA256: sha, Store: kind, Flags: desync.CaFormatExcludeNoDump, Min: 16, Avg: 64, Max: 256,
+					N: 2, SizeMode: "small", SizeSeed: 1, IDMode: "rand", IDSeed: 2, Pick: 1, Conc: &cc}
+				if !hx.Case(t, spec, c) {
+					return
+				}
+			}
+		}
+	}
+}
+
+func concKey(c *Conc) string {
+	if c == nil {
+		return ""
+	}
+	return fmt.Sprintf("/%+v", *c)
 }
 
 // fixtureFiles lists the index fixtures of the repository (repo-relative).
